@@ -774,8 +774,8 @@ func (c *compiler) compile(tok *token) []instruction {
 		const rangeKey, rangeValue, rangeItem, rangeBlock = 0, 1, 2, 3
 		res = append(res, c.compile(tok.Tokens[rangeItem])...)
 		r := c.Locals.Index(tok.Pos.String())
-		k := c.Locals.Index(tok.Tokens[rangeKey].Text)
-		v := c.Locals.Index(tok.Tokens[rangeValue].Text)
+		k := c.Shadow(tok.Tokens[rangeKey].Text)
+		v := c.Shadow(tok.Tokens[rangeValue].Text)
 		c.Begin()
 		block := c.optimize(c.compile(tok.Tokens[rangeBlock]))
 		c.End()
